@@ -9,7 +9,7 @@ _entry.id   1ABC
 # a comment line
 _audit_conform.dict_name       mmcif_pdbx.dic
 _audit_conform.dict_version    5.338
-_struct.title 'A title with spaces and a quote d'Artagnan'
+_struct.title 'A title with spaces and # no comment'
 _struct.descr "double quoted 'inner' text"
 _struct.long
 ;first line of a text field
@@ -127,7 +127,7 @@ ATOM   2 C CA  A ALA A A 1 1 1   ? 12.56  7.0    -5.0   0.5 12.5 0  1 . . . . . 
 ATOM   3 C CA  B ALA A A 1 1 1   ? 12.66  7.1    -5.1   0.5 12.5 0  1 . . . . . . . . .
 ATOM   4 H "H'" . ALA A A 1 1 1   ? 13.0   7.5    -5.5   1.0 15.0 ?  1 . . . . . . . . .
 HETATM 5 ZN ZN . ZN  B A 2 . 101 A 15.0   8.0    -4.0   1.0 20.0 2  1 . . . . . . . . .
-HETATM 6 O O   . HOH C W 3 . 201 ? 1.5e1  -8.0   4.0(2) 1.0 30.0 ?  1 . . . . . . . . .
+HETATM 6 O O   . HOH C W 3 . 201 ? 1.5e1  -8.0   4.0    1.0 30.0 ?  1 . . . . . . . . .
 ATOM   7 N N   . ALA A A 1 1 1   ? 11.204 6.234  -6.404 1.0 10.0 ?  2 . . . . . . . . .
 ATOM   8 C CA  . ALA A A 1 1 1   ? 12.57  7.01   -5.01  1.0 12.5 -1 2 . . . . . . . . .
 #
@@ -204,6 +204,7 @@ pub const CLASSES: &[(&str, &[&str])] = &[
 pub fn structural_faults(base: &str) -> Vec<(String, String)> {
     let mut v: Vec<(String, String)> = Vec::new();
     let mut add = |n: &str, t: String| v.push((n.to_string(), t));
+    add("embedded-quote", "data_x\n_struct.title 'a quote d'Artagnan inside'\n".into());
     add("empty", String::new());
     add("only-ws", " \n\t\n".into());
     add("only-comment", "# nothing\n".into());
